@@ -75,6 +75,8 @@ func dependsOnLoop(v ssa.Value, body map[*ssa.BasicBlock]bool, seen map[ssa.Valu
 
 func runC12(c *Ctx) {
 	c.Rule("C12.R12", "no address of a (go 1.18) loop variable escapes its iteration in the update and dump code", 1)
+	c.Rule("C12.R13", "a route lookup concurrent with a single-route update walks entirely the old or entirely the new list: the list read under vh.mutex is not used after the lock is released", 3)
+	defer c04NoEscapeRule(c, "pkg/router", "C12.R13")
 	defer loopVarEscapes(c, "C12.R12", []string{"pkg/configmanager", "pkg/router", "pkg/upstream/cluster", "pkg/server"})
 	c.Rule("C12.R11", "frozen lockset: a router wrapper's table and stored config, and a cluster's host set and health checker, are only touched under their mutex", 8)
 	defer runLockTables(c, "C12", nil)
